@@ -220,6 +220,22 @@ CHECKS = {
 PENDING_REASON = "check not yet built in this round (planned in DESIGN.md §3); not claimed until its TLA+ model and conformance harness exist"
 
 
+# additions made while strengthening the checks against seeded changes (appended to the level text)
+EXTRA = {
+    "C01": " Piola-mapped coefficients (contravariant, covariant, double co-/contravariant, covariant-contravariant, L2) are part of the meaning part: the pool holds physical data and the reference value read after pullback is the inverse Piola map of it.",
+    "C02": " Also: two derivatives with different user-supplied coefficient relations in one expansion, a fixed rank-2 component or a tuple of components as the differentiation target, and the chain rule through exp/ln/sin/cos/tan/sinh/cosh/tanh/asin/atan at their rational points.",
+    "C03": " Also: rank-3 results (grad/nabla_grad of rank-2 fields, second gradients), geometric terminals under the operators, and the chain rule through the elementary functions at their rational points.",
+    "C04": " Also: several differentiation variables in one expansion (mixed partials), variables that wrap a spatial derivative of a non-terminal (directions = spatial directions followed by the variables' components), variable(.. grad(u) ..) energies, and the elementary functions at their rational points.",
+    "C05": " Also: zeros carrying free indices of different extents under binding in either index order, and the elementary functions at their rational points.",
+    "C09": " Also: compound algebra over K.J (dot, det, sym, skew, cofac, ...) whose lowering instantiates one summation index object with several partners.",
+    "C10": " Also: zeros with two free indices of different extents hidden in conditionals and closed by transposing component tensors.",
+    "C21": " Also: images that are numbers or zero tensors, and shape-changing maps of equal rank (2 -> 3, 2x3 -> 3x2).",
+    "C25": " Universes with directional spaces of several dimensions at once (related only through an isotropic space between them).",
+    "C27": " Form histories include a FormSum of cofunctions, 1.0*a and measures reconfigured with the user's metadata dicts plus degree=/scheme=.",
+    "C29": " When the code departs from the transcription the order laws are judged on the real comparator over the universe (tie vs equality, antisymmetry, transitivity); a third conformance pass shares sub-objects within each term only.",
+}
+
+
 def main():
     checks = []
     for pid in ALL:
@@ -234,7 +250,7 @@ def main():
                 "evidence_file": f"/verif/evidence/{pid}.json",
                 "replay_cmd_template": f"./check {pid} --replay {{path}}",
                 "engine": c["engine"],
-                "level_claimed": {"category": "model_checking", "text": c["text"], "design_ref": c["design_ref"]},
+                "level_claimed": {"category": "model_checking", "text": c["text"] + EXTRA.get(pid, ""), "design_ref": c["design_ref"]},
                 "level_note": c["note"],
                 "technique": c["technique"],
             }
